@@ -34,4 +34,57 @@ PROPS = {
     ),
 }
 
+BOUNDED_ONLY = ('contract-based deductive verification is the family; for this property no obligation is discharged yet: the check is the '
+                'bounded stand-in only (run-time comparison of the real code with an independent FM-94 reference codec on generated and '
+                'corpus inputs), labelled bounded, not counted as proved')
+
+PROPS.update({
+    'C01': dict(
+        level='exploration', bounded='codec.py', bounded_timeout={'quick': 900, 'thorough': 7000},
+        trusted_base=[L['L1']],
+        assumptions=['oracle: bounded/refcodec.py (independent FM-94 decoder written from the rules, shares only the table files); '
+                     'it agrees with the real decoder on 158 of 159 sample files (1 is the deliberately invalid one)',
+                     'floating point: values compared with relative tolerance 1e-9 against exact rationals'],
+        claim='Bounded: the real decoder returns, for generated templates (all operators of the quantifier) and every sample file, '
+              'the values, labels and links an independent FM-94 reference decoder assigns to the same bytes.',
+        note='Bounded stand-in only so far; oracle = independent reference decoder (not verified).',
+        technique=BOUNDED_ONLY, explanation='bounded comparison with an independent FM-94 reference decoder'),
+    'C02': dict(
+        level='exploration', bounded='codec.py', bounded_timeout={'quick': 900, 'thorough': 7000},
+        trusted_base=[L['L1']],
+        assumptions=['oracle: bounded/refcodec.py reference encoder / reader'],
+        claim='Bounded: uncompressed output is byte-identical to an independently built message; compressed output is read back by an '
+              'independent reader as exactly the given raw values, all-ones marks exactly the missing entries, width 0 iff all agree.',
+        note='Bounded stand-in only so far.', technique=BOUNDED_ONLY, explanation='bounded comparison with an independent encoder / reader'),
+    'C03': dict(
+        level='exploration', bounded='codec.py', bounded_timeout={'quick': 900, 'thorough': 7000},
+        trusted_base=[L['L1'], L['L4']],
+        assumptions=['IEEE doubles; exact rationals as oracle'],
+        claim='Bounded: half-unit bound, exact read-back of grid values, refusal of non-fitting values (never wrapped / clipped), missing '
+              'stays missing, decode/encode fixpoint on corpus and generated messages.',
+        note='Bounded stand-in only so far.', technique=BOUNDED_ONLY, explanation='bounded round trips over every numeric Table B element'),
+    'C05': dict(
+        level='exploration', bounded='codec.py', bounded_timeout={'quick': 900, 'thorough': 7000},
+        trusted_base=[L['L1']],
+        assumptions=['oracle: bounded/refcodec.py'],
+        claim='Bounded, exhaustive small scope: every column of <= 4 subsets over {missing, 0..2^w-2}, w <= 4, every legal difference '
+              'width; random wide columns, strings; compressed vs uncompressed storage of the same data decode identically.',
+        note='Bounded stand-in only so far.', technique=BOUNDED_ONLY, explanation='exhaustive small-scope columns + random + mode comparison'),
+    'C17': dict(
+        level='proof', bounded='C17.py', bounded_timeout={'quick': 600, 'thorough': 3000},
+        trusted_base=[L['L1'], L['L3'], L['L5'], L['L6'], L['term'],
+                      'BufrSection abstracted to its ordered parameter list (`_params` = `_namespace.values()`, an OrderedDict) and its '
+                      'metadata attributes; lists of objects hold no None (checked at every store in verified code)'],
+        assumptions=['`no matching parameter => None` of MetadataQuerent.query, the edition-specific section layouts and metadata-only '
+                     'decoding (info_configuration, Decoder.process, stream scan) are checked by the bounded layer only',
+                     'expressions with more than one dot are outside the statement (the code raises ValueError; left open)'],
+        claim='MetadataExprParser.parse is proved to reject with MetadataExprParsingError exactly the expressions without leading % or '
+              'with a non-numeric index, to return (None, name) / (int, name) otherwise and to let no other exception escape; '
+              'MetadataQuerent.query is proved to return the value of the first parameter of that name in the first matching section '
+              '(for every position, if it is the first match then the result is its value). The remaining clauses are bounded.',
+        note='Trusted: SMT string theory for Python str (strip, startswith, split on a literal, int() of a decimal literal), the section '
+             'abstraction, partial correctness. Bounded (not proved): None-when-absent, info-only decoding, stream scan.',
+        explanation='parse and first-match lookup proved; metadata-only decoding bounded'),
+})
+
 NOT_APPLICABLE = {}
